@@ -2,6 +2,14 @@
 from fractions import Fraction
 
 
+def _is_number(x):
+    try:
+        Fraction(x)
+        return True
+    except (ValueError, ZeroDivisionError):
+        return False
+
+
 def sc(x):
     if isinstance(x, list):
         return (Fraction(x[0]), Fraction(x[1]))
@@ -44,6 +52,9 @@ def stmts(ss):
             out.append(("assign", s[1], [(sc(p), poly(e)) for p, e in s[2]], cond(s[3]), s[4]))
         elif s[0] == "draw":
             out.append(("draw", s[1], dist(s[2]), cond(s[3]), s[4]))
+        elif s[0] == "func":
+            arg = s[3] if not _is_number(s[3]) else Fraction(s[3])
+            out.append(("func", s[1], s[2], arg, cond(s[4]), s[5]))
         elif s[0] == "if":
             out.append(("if", [cond(c) for c in s[1]], [stmts(b) for b in s[2]], stmts(s[3])))
         else:
